@@ -146,7 +146,10 @@ func tokenize(expr string) ([]string, error) {
 		// Handle multi-character operators
 		if i+1 < len(expr) {
 			twoChar := expr[i : i+2]
-			if isOperator(twoChar) {
+			// A word operator (OR, IS) only when it is a whole word: "order1" or "iso" is an identifier.
+			wordPrefix := isLetter(twoChar[0]) && i+2 < len(expr) &&
+				(isLetter(expr[i+2]) || isDigit(expr[i+2]) || expr[i+2] == '_' || expr[i+2] == '.' || expr[i+2] == '$' || expr[i+2] == '[')
+			if isOperator(twoChar) && !wordPrefix {
 				tokens = append(tokens, twoChar)
 				i += 2
 				continue
